@@ -20,7 +20,8 @@ RULE = (
     "fresh copies.  Messages of all 25 merging kinds are drawn against A's current state, biased to "
     "carry stories and then to edit inside carried stories (item delete/insert/replace/move/swap, "
     "re-send, replace).  Invariants after every step: (I1) str(m) of every message object ever merged "
-    "equals its value before its first merge; (I2) str(A) == str(A'); (I3) str(B) == str(B') and the "
+    "equals its value before its first merge, and so does what its accessors expose (story / stories / "
+    "item(s) / source / target IDs and the content of carried stories and items); (I2) str(A) == str(A'); (I3) str(B) == str(B') and the "
     "re-used object raises exactly when the fresh copy does.  Non-trivial = a step whose message "
     "edits a story that an earlier message object carried, or a re-use step of a payload-carrying "
     "object; distinct = distinct (state text, message text) digests.")
@@ -51,17 +52,25 @@ class World:
     def __init__(self, ro_xml):
         self.a, self.a_ref, self.b, self.b_ref = (RunningOrder.from_string(ro_xml) for _ in range(4))
         self.objs = []          # (obj, str before first merge, text, kind)
+        self.views = []         # accessor view of each object before its first merge
         self.j = 0              # how many objects B has received
         self.carried = {}       # story id -> kind of the message that carried it
         self.fails = []
         self.edited_since = set()
 
     def check(self, what):
-        for obj, s0, text, kind in self.objs:
+        from checks.c20 import msg_view
+        for k, (obj, s0, text, kind) in enumerate(self.objs):
             if str(obj) != s0:
                 self.fails.append(Failure(PROP, f'C13|{kind}|message-object-modified',
                                           f'after {what}: str() of a merged {kind} object changed',
                                           s0, str(obj)))
+            elif k >= len(self.objs) - 6 and msg_view(obj) != self.views[k]:
+                # what the object exposes through its accessors (IDs, carried stories/items)
+                # must not change either (only the most recent objects are re-read: cost)
+                self.fails.append(Failure(PROP, f'C13|{kind}|message-accessors-changed',
+                                          f'after {what}: the accessors of a merged {kind} object expose '
+                                          f'different content than before its merge', self.views[k], msg_view(obj)))
         if str(self.a) != str(self.a_ref):
             self.fails.append(Failure(PROP, 'C13|running-order-differs-from-fresh-fold',
                                       f'after {what}: the running order that received live objects differs '
@@ -78,6 +87,8 @@ class World:
         obj = MosFile.from_string(text)
         kind = type(obj).__name__
         s0 = str(obj)
+        from checks.c20 import msg_view
+        self.views.append(msg_view(obj))
         m = model.Msg(text)
         info = {'kind': kind, 'edit_inside_carried': False}
         tgt = None
